@@ -21,6 +21,7 @@ code and by the model and re-checked semantically by the oracle).
 -/
 import PubgrubProofs.CollapseSound
 import PubgrubProofs.TreeLink
+import PubgrubProofs.CollapseNoPanic
 
 namespace Pubgrub.C09
 open Pubgrub
@@ -74,5 +75,16 @@ theorem C09_on_resolve_trees {Pr E : Type} [DecidableEq V] [LE Pr] [DecidableLE 
     t'.Sound W.Exists ∧ t'.LeavesTrueExisting W root rv ∧ t'.NoVersionsOnlyBesideLeaf ∧
       (∀ σ : P → Option V, Within W.Exists σ → σ root = some rv → TermsTrue σ t'.terms) :=
   noSolution_collapse_sound W hW debug fuel root rv s tree h t' hc
+
+/-- C09, last clause: `collapse_no_versions` never panics on a tree produced by `resolve` (the only
+panic site — a `NoVersions` leaf beside a `NotRoot` leaf — is unreachable: a `NoVersions` clause about
+the root contains the requested version, hence is terminal before it could be resolved with clause 0) -/
+theorem C09_no_panic_on_resolve_trees {Pr E : Type} [DecidableEq V] [DecidableEq S] [LE Pr] [DecidableLE Pr]
+    [LawfulVersionSet S V] [CanonicalEmpty S V]
+    (W : World P S V M) (hW : W.SetsValid) (debug : Bool) (fuel : Nat)
+    (root : P) (rv : V) (s : SolverState P S V M Pr) (tree : DerivationTree P S V M)
+    (h : Reachable (E := E) W debug fuel root rv (s, .noSolution tree)) :
+    ∃ t', tree.collapseNoVersions = .ok t' :=
+  noSolution_collapse_no_panic W hW debug fuel root rv s tree h
 
 end Pubgrub.C09
